@@ -224,11 +224,312 @@ def judgeChainLine (ws res : List String) : String :=
     | _, _ => "bad-op"
   | _ => "bad-op"
 
+/-- `<n> (0|1)*n` -/
+def parseFlags : List String → Option (List Bool × List String)
+  | k :: ts =>
+    match k.toNat? with
+    | some n =>
+      let fs := ts.take n
+      if fs.length == n && fs.all (fun t => t == "0" || t == "1") then some (fs.map (· == "1"), ts.drop n) else none
+    | none => none
+  | [] => none
+
+/-- op and operands of a call line in any of the three modes -/
+def parseCall (ws : List String) : Option (Op × DPoly × DPoly) :=
+  match ws with
+  | o :: _ft :: "L" :: _n :: rest =>
+    match parseOp o, parseAB rest with
+    | some op, some (a, b) => some (op, a, b)
+    | _, _ => none
+  | o :: _ft :: "LT" :: _n :: _k :: _ox :: _oy :: rest =>
+    match parseOp o, parseAB rest with
+    | some op, some (a, b) => some (op, a, b)
+    | _, _ => none
+  | o :: _ft :: "P" :: _m :: k :: rest =>
+    match parseOp o, k.toNat? with
+    | some op, some kv =>
+      match parsePts kv rest with
+      | some (_, rest') =>
+        match parseAB rest' with
+        | some (a, b) => some (op, a, b)
+        | none => none
+      | none => none
+    | _, _ => none
+  | _ => none
+
+/-- area `prune`: the flags `identifyNonContributingContours` returned (through the overlay) for the operands of the
+    line are accepted iff `EO.pruneOK` holds on the exact values (all numbers brought to a common denominator) -/
+def judgePrune (ws rts : List String) : String :=
+  match parseCall ws, parseFlags rts with
+  | some (op, a, b), some (fa, rest) =>
+    match parseFlags rest with
+    | some (fb, []) =>
+      let emin := minExp b (minExp a 0)
+      let A := scalePoly emin a
+      let B := scalePoly emin b
+      if fa.length != A.length || fb.length != B.length then "invalid prune: flag count differs from contour count"
+      else if pruneOK op A B fa fb then
+        -- on lines whose float arithmetic is exact (small lattice integers, quarter steps) the flags are also compared
+        -- with the transcription of the code's rule; a difference is reported, not rejected
+        let exact := match ws with
+          | _ :: _ :: "L" :: _ => true
+          | _ :: _ :: "P" :: _ => true
+          | _ => false
+        let rule := if !exact then "rule-not-compared"
+          else if nonContributing (2 ^ (-emin).toNat) op A B == (fa, fb) then "rule-agrees" else "rule-differs"
+        s!"valid {(fa.filter id).length + (fb.filter id).length} pruned-of {fa.length + fb.length} {rule}"
+      else
+        let what := if op == .union || op == .xor then "a contour is flagged for an operation that prunes nothing"
+          else if op == .sub && fa.any id then "a receiver contour is flagged for Sub"
+          else "a flagged contour is not separated from every contour of the other operand"
+        s!"invalid prune: {what} (subject flags {fa.map b01}, clip flags {fb.map b01})"
+    | _ => "invalid impl:unparsable-flags"
+  | none, _ => "bad-op"
+  | _, none => "invalid impl:unparsable-flags"
+
+/-- `(C <0|1> <nv> pts)*n` -/
+def parseChains : Nat → List String → Option (List (Bool × List DPt) × List String)
+  | 0, ts => some ([], ts)
+  | n + 1, "C" :: a :: k :: ts =>
+    match k.toNat? with
+    | some kv =>
+      match parsePts kv ts with
+      | some (c, rest) =>
+        match parseChains n rest with
+        | some (r, rest') => if a == "0" || a == "1" then some ((a == "1", c) :: r, rest') else none
+        | none => none
+      | none => none
+    | none => none
+  | _ + 1, _ => none
+
+def ptInt (q : DPt) : Option Pt :=
+  match q.1.toInt?, q.2.toInt? with
+  | some a, some b => some ⟨a, b⟩
+  | _, _ => none
+
+/-- area `emit`: the polygon the real `polygonNode.generate` returned for the chains must contain exactly the points the
+    active chains contain (exhaustive cell check `EO.sameRegionLattice`, `C05.emit_sound`); whether it
+    equals the transcription `EO.generate` vertex for vertex is reported, not demanded -/
+def judgeEmit (ws res : List String) : String :=
+  match ws with
+  | "emit" :: _ft :: "L" :: n :: k :: rest =>
+    match n.toNat?, k.toNat? with
+    | some N, some kv =>
+      match parseChains kv rest with
+      | some (chs, []) =>
+        match chs.mapM (fun (ac : Bool × List DPt) => (ac.2.mapM ptInt).map (fun c => (ac.1, c))) with
+        | some ichs =>
+          match res with
+          | ["unobserved"] => "unjudged emission-step-not-observed(black-box build)"
+          | "R" :: rts =>
+            match parsePoly rts with
+            | some (r, []) =>
+              match polyInts r with
+              | none => "invalid emit: result-vertex-off-lattice"
+              | some R =>
+                let A := activeChains ichs
+                if N == 0 then "unjudged no-cell"
+                else if sameRegionLattice N A R then
+                  s!"valid {N * N} " ++ (if R == generate ichs then "rule-agrees" else "rule-differs")
+                else if !(latticeOK N A) then "bad-op"
+                else if !(latticeOK N R) then "invalid emit: result-not-lattice-rectilinear"
+                else match firstBadCell N A [] R .union with
+                  | some (i, j) =>
+                    let c := centre2 i j
+                    s!"invalid emit: cell {i} {j} emitted={b01 (inside (dblPoly R) c)} chains={b01 (inside (dblPoly A) c)}"
+                  | none => "invalid emit"
+            | _ => "invalid result-non-finite-or-unparsable"
+          | [] => "bad-op"
+          | other => "invalid impl:" ++ "_".intercalate other
+        | none => "bad-op"
+      | _ => "bad-op"
+    | _, _ => "bad-op"
+  | _ => "bad-op"
+
+def parseNums : Nat → List String → Option (List Dy × List String)
+  | 0, ts => some ([], ts)
+  | n + 1, x :: ts =>
+    match parseNum x, parseNums n ts with
+    | some a, some (r, rest) => some (a :: r, rest)
+    | _, _ => none
+  | _ + 1, [] => none
+
+/-- area `sbt`: the table the real scan-beam tree returned must be the table of the transcription
+    (`C05.scanBeamTable_spec`: strictly ascending, exactly the ordinates added) -/
+def judgeSbt (ws res : List String) : String :=
+  match ws with
+  | "sbt" :: _ft :: k :: rest =>
+    match k.toNat? with
+    | some kv =>
+      match parseNums kv rest with
+      | some (ys, []) =>
+        match res with
+        | ["unobserved"] => "unjudged scan-beam-table-not-observed(black-box build)"
+        | "T" :: m :: rts =>
+          match m.toNat? with
+          | some mv =>
+            match parseNums mv rts with
+            | some (tab, []) =>
+              let emin := (ys ++ tab).foldl (fun a d => min a d.e) 0
+              let want := scanBeamTable (ys.map (·.scaled emin))
+              let got := tab.map (·.scaled emin)
+              if got == want then s!"valid {got.length} beams-of {ys.length}"
+              else s!"invalid sbt: the table is not the ascending list of the distinct ordinates added: got {got.take 6}… expected {want.take 6}… (first entries, unit 2^{emin}; {got.length} / {want.length} entries)"
+            | _ => "invalid result-non-finite-or-unparsable"
+          | none => "invalid result-non-finite-or-unparsable"
+        | [] => "bad-op"
+        | other => "invalid impl:" ++ "_".intercalate other
+      | _ => "bad-op"
+    | none => "bad-op"
+  | _ => "bad-op"
+
+/-- `<n> (bx by tx ty)*n` -/
+def parseEdges4 : Nat → List String → Option (List (DPt × DPt) × List String)
+  | 0, ts => some ([], ts)
+  | n + 1, a :: b :: c :: d :: ts =>
+    match parseNum a, parseNum b, parseNum c, parseNum d, parseEdges4 n ts with
+    | some x, some y, some z, some w, some (r, rest) => some (((x, y), (z, w)) :: r, rest)
+    | _, _, _, _, _ => none
+  | _ + 1, _ => none
+
+/-- `(<#edges> edges)*n`: the bounds of one local minimum, flattened -/
+def parseBounds : Nat → List String → Option (List (DPt × DPt) × List String)
+  | 0, ts => some ([], ts)
+  | n + 1, k :: ts =>
+    match k.toNat? with
+    | some kv =>
+      match parseEdges4 kv ts with
+      | some (es, rest) =>
+        match parseBounds n rest with
+        | some (r, rest') => some (es ++ r, rest')
+        | none => none
+      | none => none
+    | none => none
+  | _ + 1, [] => none
+
+/-- `(<y> <#bounds> bounds)*n`: minima ordinates and all edges -/
+def parseMinima : Nat → List String → Option (List Dy × List (DPt × DPt) × List String)
+  | 0, ts => some ([], [], ts)
+  | n + 1, y :: k :: ts =>
+    match parseNum y, k.toNat? with
+    | some yv, some kv =>
+      match parseBounds kv ts with
+      | some (es, rest) =>
+        match parseMinima n rest with
+        | some (ys, r, rest') => some (yv :: ys, es ++ r, rest')
+        | none => none
+      | none => none
+    | _, _ => none
+  | _ + 1, _ => none
+
+def strictlyAscending : List Int → Bool
+  | a :: b :: t => decide (a < b) && strictlyAscending (b :: t)
+  | _ => true
+
+/-- area `lmt`: `LM <#minima> … SB <#beams> …` for the operand A of the line -/
+def judgeLmt (ws rts : List String) : String :=
+  match parseCall ws, rts with
+  | some (_, a, _), m :: rest =>
+    match m.toNat? with
+    | some mv =>
+      match parseMinima mv rest with
+      | some (ys, es, "SB" :: k :: rest') =>
+        match k.toNat? with
+        | some kv =>
+          match parseNums kv rest' with
+          | some (tab, []) =>
+            let emin := tab.foldl (fun acc d => min acc d.e)
+              (es.foldl (fun acc e => min acc (min (min e.1.1.e e.1.2.e) (min e.2.1.e e.2.2.e))) (minExp a 0))
+            let A := scalePoly emin a
+            let sp (q : DPt) : Pt := ⟨q.1.scaled emin, q.2.scaled emin⟩
+            let E := es.map fun e => (sp e.1, sp e.2)
+            let want := ((allEdges A).filter nonHoriz).map upEdge
+            if !(lmtOK A E) then
+              s!"invalid lmt: the edges of the bounds ({E.length}) are not the non-horizontal edges of the polygon ({want.length}), lower end first"
+            else if !(strictlyAscending (ys.map (·.scaled emin))) then "invalid lmt: local minima not strictly ascending"
+            else if tab.map (·.scaled emin) != scanBeamTable (want.flatMap fun e => [e.1.y, e.2.y]) then
+              "invalid lmt: the scan-beam table is not the ascending list of the ordinates of the edges' end points"
+            else s!"valid {E.length} edges-in {ys.length} minima"
+          | _ => "invalid impl:unparsable-table"
+        | none => "invalid impl:unparsable-table"
+      | _ => "invalid impl:unparsable-table"
+    | none => "invalid impl:unparsable-table"
+  | none, _ => "bad-op"
+  | _, [] => "invalid impl:unparsable-table"
+
+/-- compare the bits the library's test returned with the transcription at the points that are to be judged;
+    `none` = all agree (with the number judged), `some i` = first disagreeing point -/
+def cmpBits (bits : List Char) (pts : List Pt) (judge : Pt → Bool) (model : Pt → Bool) : Nat × Option Nat :=
+  let rec go (bs : List Char) (ps : List Pt) (i n : Nat) : Nat × Option Nat :=
+    match bs, ps with
+    | b :: bs', q :: ps' =>
+      if b == '-' || !(judge q) then go bs' ps' (i + 1) n
+      else if (b == '1') == model q then go bs' ps' (i + 1) (n + 1)
+      else (n, some i)
+    | _, _ => (n, none)
+  go bits pts 0 0
+
+/-- area `contains`: `CE <A> <B> CA <A> <B>`; a point is judged for a polygon iff it keeps the margin `mm` from all edges
+    of that polygon and lies on none of them -/
+def judgeContainsI (mm : Int) (A B : Polygon) (pts : List Pt) (rts : List String) : String :=
+  match rts with
+  | [ea, eb, "CA", ca, cb] =>
+    let str (t : String) : List Char := if t == "." then [] else t.toList
+    if [ea, eb, ca, cb].any (fun t => t != "." && t.length != pts.length) then "invalid impl:bit-count"
+    else
+      let jd (P : Polygon) (q : Pt) : Bool := clear mm P q && offEdges P q
+      let r1 := cmpBits (str ea) pts (jd A) (containsEvenOdd A)
+      let r2 := cmpBits (str eb) pts (jd B) (containsEvenOdd B)
+      let r3 := cmpBits (str ca) pts (jd A) (containsAny A)
+      let r4 := cmpBits (str cb) pts (jd B) (containsAny B)
+      match r1.2, r2.2, r3.2, r4.2 with
+      | some i, _, _, _ => s!"invalid contains: ContainsEvenOdd(A) at point {i} differs from the transcription"
+      | _, some i, _, _ => s!"invalid contains: ContainsEvenOdd(B) at point {i} differs from the transcription"
+      | _, _, some i, _ => s!"invalid contains: Contains(A) at point {i} differs from the transcription"
+      | _, _, _, some i => s!"invalid contains: Contains(B) at point {i} differs from the transcription"
+      | none, none, none, none =>
+        let n := r1.1 + r2.1 + r3.1 + r4.1
+        if n == 0 then "unjudged no-point-keeps-the-margin" else s!"valid {n} point-tests"
+  | _ => "invalid impl:unparsable-bits"
+
+def judgeContains (ws rts : List String) : String :=
+  match ws with
+  | o :: _ft :: "L" :: n :: rest =>
+    match parseOp o, n.toNat?, parseAB rest with
+    | some _, some N, some (a, b) =>
+      match polyInts a, polyInts b with
+      | some A, some B =>
+        let pts := if N ≤ 64 then (List.range N).flatMap (fun j => (List.range N).map (fun i => centre2 i j)) else []
+        judgeContainsI 1 (dblPoly A) (dblPoly B) pts rts
+      | _, _ => "bad-op"
+    | _, _, _ => "bad-op"
+  | o :: _ft :: "P" :: m :: k :: rest =>
+    match parseOp o, parseNum m, k.toNat? with
+    | some _, some mv, some kv =>
+      match parsePts kv rest with
+      | some (pts, rest') =>
+        match parseAB rest' with
+        | some (a, b) =>
+          if mv.m ≤ 0 then "bad-op margin-not-positive" else
+          let emin := minExp [pts] (minExp b (minExp a (min 0 mv.e)))
+          judgeContainsI (mv.scaled emin) (scalePoly emin a) (scalePoly emin b)
+            (pts.map fun (x, y) => (⟨x.scaled emin, y.scaled emin⟩ : Pt)) rts
+        | none => "bad-op"
+      | none => "bad-op"
+    | _, _, _ => "bad-op"
+  | _ => "bad-op"
+
 def judge (ws res : List String) : String :=
   match ws with
   | "chain" :: _ => if res.isEmpty then "bad-op" else judgeChainLine ws res
+  | "emit" :: _ => judgeEmit ws res
+  | "sbt" :: _ => judgeSbt ws res
   | _ =>
   match res with
+  | "CE" :: rts => judgeContains ws rts
+  | "LM" :: rts => judgeLmt ws rts
+  | "NC" :: rts => judgePrune ws rts
+  | ["unobserved"] => "unjudged pruning-step-not-observed(black-box build)"
   | "R" :: rts =>
     match ws with
     | o :: _ft :: "L" :: n :: rest =>
